@@ -28,6 +28,7 @@ import (
 	"log"
 	"net"
 	"runtime"
+	"strings"
 	"sync"
 	"sync/atomic"
 	"testing"
@@ -105,15 +106,27 @@ func (c *v28Conn) Read(b []byte) (int, error) {
 	}
 }
 
-func (c *v28Conn) Close() error                       { c.once.Do(func() { close(c.closed) }); return nil }
-func (c *v28Conn) LocalAddr() net.Addr                { return &net.TCPAddr{} }
-func (c *v28Conn) RemoteAddr() net.Addr               { return &net.TCPAddr{} }
-func (c *v28Conn) SetDeadline(time.Time) error        { return nil }
-func (c *v28Conn) SetReadDeadline(time.Time) error    { return nil }
-func (c *v28Conn) SetWriteDeadline(time.Time) error   { return nil }
-func (c *v28Conn) bytesCopy() []byte                  { c.mu.Lock(); defer c.mu.Unlock(); return append([]byte(nil), c.captured.Bytes()...) }
-func (c *v28Conn) park()                              { c.mu.Lock(); c.parked = make(chan struct{}); c.mu.Unlock() }
-func (c *v28Conn) release()                           { c.mu.Lock(); g := c.parked; c.parked = nil; c.mu.Unlock(); if g != nil { close(g) } }
+func (c *v28Conn) Close() error                     { c.once.Do(func() { close(c.closed) }); return nil }
+func (c *v28Conn) LocalAddr() net.Addr              { return &net.TCPAddr{} }
+func (c *v28Conn) RemoteAddr() net.Addr             { return &net.TCPAddr{} }
+func (c *v28Conn) SetDeadline(time.Time) error      { return nil }
+func (c *v28Conn) SetReadDeadline(time.Time) error  { return nil }
+func (c *v28Conn) SetWriteDeadline(time.Time) error { return nil }
+func (c *v28Conn) bytesCopy() []byte {
+	c.mu.Lock()
+	defer c.mu.Unlock()
+	return append([]byte(nil), c.captured.Bytes()...)
+}
+func (c *v28Conn) park() { c.mu.Lock(); c.parked = make(chan struct{}); c.mu.Unlock() }
+func (c *v28Conn) release() {
+	c.mu.Lock()
+	g := c.parked
+	c.parked = nil
+	c.mu.Unlock()
+	if g != nil {
+		close(g)
+	}
+}
 func (c *v28Conn) setFailAfterMore(k int64) {
 	c.faulted.Store(true)
 	c.mu.Lock()
@@ -142,7 +155,7 @@ func v28Payload(tag uint64, extra int) []byte {
 
 type v28Obs struct {
 	conns, reconnects, dropRecords, droppedEvents, delivered, followupsDelivered, parkedEmits, closeRaces, dialFailures int
-	invalid, cleanEnds, emptyDelivered, largeEmitted                                                                int
+	invalid, cleanEnds, emptyDelivered, largeEmitted                                                                    int
 }
 
 // v28Scenario runs one scenario and returns a violation description ("" = held) with details.
@@ -703,6 +716,11 @@ func TestVerifC28(t *testing.T) {
 			}
 			d["gomaxprocs"] = procs
 			h.Viol("run", ci, "", why, d)
+			if strings.Contains(why, "did not finish within") || strings.Contains(why, "did not return within") {
+				// an emitter is blocked for good: its goroutines (and the lock they hold) are still around, every further run of this
+				// process would wait for its watchdog as well. One witness is enough; the other shards go on.
+				break
+			}
 			continue
 		}
 		if ci%8 == 3 { // the follow-up / reconnect race (memory-hungry: 24 MiB payloads), in every 8th run, with GOMAXPROCS=16
